@@ -400,7 +400,7 @@ class AbstractActorCriticOnPolicyAlgorithm[PolicyType: AbstractActorCriticPolicy
         )
 
         # Reset environment if done
-        next_env_state = filter_cond(
+        next_env_state = lax.cond(
             done, lambda: env.initial(key=env_reset_key), lambda: next_env_state
         )
 
